@@ -50,6 +50,12 @@ CLAIMS.update({
     text="Theorems C18_* about getGraph, a model of DotGraphMachine.get_graph: for every machine of any size the node ids are the pseudo-node i plus the state ids, without duplicates when no state is called i (a counterexample is proved for that case: known finding D18a); edges are one initial edge followed by exactly the external transitions (source->target, events, guards); internal transitions appear in their state's label and contribute no edge; double border iff final; exactly the current state's node highlighted for an instance, none for a class. The model is compared with the real pydot graph item by item and with the graph denoted by the DOT text, on generated classes and instances in every state.",
     design="7 C18"),
 })
+CLAIMS.update({
+  "C11": dict(
+    technique="Lean 4 proof (closed-form evaluation of construction/activation on a machine at rest; relational invariants) + model/implementation correspondence + Spec monitor on implementation traces",
+    text="Theorems C11_resume (construction over a stored state returns the configuration unchanged: no callback, no write, nothing queued; sync rtc on/off and async), C11_idempotent (activate_initial_state on a machine at rest is the identity), C11_start_fresh / C11_async_defers / C11_async_initial_first (over a fresh model exactly one __initial__ trigger is queued; the async engine defers it and it is ahead of the first event in the FIFO queue), C11_initial_block / C11_initial_stores (that trigger only assigns the start state's value and runs its enter callbacks), C11_state_stays (a stored state never becomes none again, so activation happens once). Correspondence: every state value (and invalid ones) as stored value, start_value, repeated activation/construction at random points, enter callbacks that send events, sync/async, rtc on/off.",
+    design="7 C11"),
+})
 NOT_APPLICABLE = {}
 
 def main():
